@@ -1,9 +1,10 @@
 #!/bin/bash
-# runs every kept seeded change against its property's quick check; prints one line per seed
+# runs every kept seeded change against its property's quick check (in a scratch worktree, /repo
+# itself is not touched); prints one line per seed
 cd /verif
 for d in seeded/C*; do
   s=$(basename $d); p=${s%-*}
-  out=$(./tools/run_seed.sh $d $p 2>&1)
+  out=$(./tools/run_seed_wt.sh $d $p 2>&1)
   rc=$(echo "$out" | grep -o "exit=[0-9]*")
   echo "$s $rc $(echo "$out" | grep -c '^VIOLATION') violations"
 done
